@@ -5,6 +5,7 @@ Verdict rule (DESIGN.md 2.4): a VIOLATION is only reported from behaviour observ
 real code; anything else that goes wrong (TLC failure, dead harness, timeout of the
 machinery itself) is exit 2 (inconclusive)."""
 import base64
+import atexit
 import json
 import os
 import re
@@ -19,8 +20,11 @@ VERIF = os.path.dirname(os.path.dirname(os.path.abspath(__file__)))
 REPO = os.environ.get("VERIF_REPO", "/repo")
 SPEC = os.path.join(VERIF, "spec")
 BUILD = os.path.join(VERIF, ".build")
-EVID = os.path.join(VERIF, "evidence")
-VH = os.path.join(BUILD, "vh")
+# runs against a scratch tree (mutant matrix, self-test) write their evidence elsewhere
+EVID = os.environ.get("VERIF_EVIDENCE_DIR") or os.path.join(VERIF, "evidence")
+# one harness binary per check process: concurrent checks (or checks against different trees, VERIF_REPO)
+# never share a build output
+VH = os.path.join(BUILD, "vh.%d" % os.getpid())
 NCPU = os.cpu_count() or 4
 
 GOENV = dict(os.environ, GOFLAGS="-mod=mod", GOPROXY="off", GOSUMDB="off", GOTOOLCHAIN="local",
@@ -52,10 +56,47 @@ def unb64(s):
 # harness build
 
 
+def _cleanup_build():
+    for suffix in ("", "-race"):
+        try:
+            os.remove(VH + suffix)
+        except OSError:
+            pass
+    shutil.rmtree(os.path.join(BUILD, "src.%d" % os.getpid()), ignore_errors=True)
+
+
+def _sweep_stale():
+    """removes build outputs of check processes that no longer exist (killed before their cleanup ran)"""
+    try:
+        names = os.listdir(BUILD)
+    except OSError:
+        return
+    for nm in names:
+        m = re.match(r"(?:vh|src)\.(\d+)(?:-race)?$", nm)
+        if m and not os.path.exists("/proc/%s" % m.group(1)):
+            p = os.path.join(BUILD, nm)
+            if os.path.isdir(p):
+                shutil.rmtree(p, ignore_errors=True)
+            else:
+                try:
+                    os.remove(p)
+                except OSError:
+                    pass
+
+
 def build_harness(race=False):
-    """(Re)builds the Go harness against /repo's current working tree with hooks enabled."""
+    """(Re)builds the Go harness against the working tree of the repository under test (/repo, or
+    VERIF_REPO) with hooks enabled, from a private copy of harness/ so that nothing under /verif is rewritten."""
     os.makedirs(BUILD, exist_ok=True)
-    hdir = os.path.join(VERIF, "harness")
+    _sweep_stale()
+    atexit.register(_cleanup_build)
+    hdir = os.path.join(BUILD, "src.%d" % os.getpid())
+    shutil.rmtree(hdir, ignore_errors=True)
+    os.makedirs(hdir)
+    src = os.path.join(VERIF, "harness")
+    for f in os.listdir(src):
+        if f.endswith(".go") or f == "go.mod":
+            shutil.copy(os.path.join(src, f), hdir)
     gosum = os.path.join(REPO, "go.sum")
     if os.path.exists(gosum):
         shutil.copy(gosum, os.path.join(hdir, "go.sum"))
@@ -63,8 +104,7 @@ def build_harness(race=False):
     gomod = os.path.join(hdir, "go.mod")
     txt = open(gomod).read()
     new = re.sub(r"(replace github.com/jsightapi/jsight-api-go-library => ).*", r"\g<1>" + REPO, txt)
-    if new != txt:
-        open(gomod, "w").write(new)
+    open(gomod, "w").write(new)
     out = VH + ("-race" if race else "")
     env = dict(GOENV)
     cmd = ["go", "build", "-tags", "verif", "-o", out]
